@@ -1,6 +1,7 @@
 import FlexModel.Proto
 import FlexModel.Net.Mesh
 import FlexModel.Net.Lag
+import FlexModel.Net.Timers
 namespace FlexModel.Net
 open FlexModel.Proto
 
@@ -166,6 +167,13 @@ def netStep (st : NetState) (t : List String) : NetState × String :=
     -- delivered yet
     match nat? i, nat? de with
     | some i, some de => queueEv st (fun m => m.retx (if st.plain then 0 else st.snMod) (reachOf st) i de)
+    | _, _ => (st, "bad-op")
+  | ["lsgiveup", i, de] =>
+    -- the retransmission timer expired with itsGnLocationServiceMaxRetrans reached: the lookup is abandoned
+    match nat? i, nat? de with
+    | some i, some de =>
+      let m := (meshOf st).giveUp i de
+      ({ st with sts := m.toList }, "ok")
     | _, _ => (st, "bad-op")
   | _ => (st, "bad-op")
 
